@@ -39,6 +39,10 @@ def main():
             return
         ctx.dump(out + ".partial")
         sys.exit(3)
+    gd = sys.modules.get("vf.workloads.graphdrv")
+    if gd is not None and gd.WARM["used"]:
+        ctx.count("graphs.history_uses_before_add_edge", gd.WARM["used"])
+        ctx.count("graphs.history_uses_raised", gd.WARM["raised"])
     ctx.dump(out)
 
 
